@@ -21,15 +21,56 @@ def build_both(run):
         return {"ts": a.result(), "nts": b.result()}
 
 
-def run_life(run, lib, script, tag, fault=None, trace=False, timeout=120, extra_env=None):
-    env = {"LD_PRELOAD": " ".join([ALLOC, lib, FAULT, RECORDER]), "VERIF_ALLOC_OBJ": os.path.basename(lib), "VERIF_FAULT_OBJ": os.path.basename(lib)}
+def compiled_ini_path(run):
+    m = re.search(r'^#define\s+SNOOPY_CONF_CONFIGFILE_PATH\s+"([^"]*)"', run.src("config.h"), re.M)
+    return m.group(1) if m else "/usr/local/etc/snoopy.ini"
+
+
+def run_life(run, lib, script, tag, fault=None, trace=False, timeout=120, extra_env=None, prod=False):
+    """prod: the library reads its COMPILED-IN configuration path (served from the run's snoopy.ini by libfaultlite's fopen redirection) and the
+    test hook for an alternative path is shadowed: the production branch of the configuration ctor runs"""
+    env = {"LD_PRELOAD": " ".join([ALLOC, FAULT, lib, RECORDER]), "VERIF_ALLOC_OBJ": os.path.basename(lib), "VERIF_FAULT_OBJ": os.path.basename(lib)}
     if fault:
         env["VERIF_FAULT"] = fault
     if trace:
         env["VERIF_FAULT_TRACE"] = "1"
+    if prod:
+        env["VERIF_PROD_INI"] = "%s=%s" % (compiled_ini_path(run), os.path.join(run.scratch, "sys-" + tag, "snoopy.ini"))
     if extra_env:
         env.update(extra_env)
     return run_script(run, lib, script, tag, timeout=timeout, env=env)
+
+
+LIFEMT = os.path.join(BUILD, "harness", "tool_lifemt")
+LIFEGATE = os.path.join(BUILD, "harness", "liblifegate.so")
+
+
+def run_lifemt(run, lib, tag, rounds, order, extra_ini=b"", timeout=120):
+    """three overlapping wrapped calls per round (tool_lifemt / liblifegate); -> {"status", "stderr", "marks": [(label, n, alloc-dict)]}"""
+    from .syslevel import parse_rec
+    d = os.path.join(run.scratch, "mt-" + tag)
+    os.makedirs(d, exist_ok=True)
+    ini, rec = os.path.join(d, "snoopy.ini"), os.path.join(d, "rec.txt")
+    open(ini, "wb").write(b"[snoopy]\noutput = file:" + os.path.join(d, "gate.log").encode() + b"\n" + extra_ini)
+    if os.path.exists(rec):
+        os.unlink(rec)
+    env = {"PATH": "/usr/bin:/bin", "HOME": "/root", "LD_PRELOAD": " ".join([ALLOC, lib, LIFEGATE]), "VERIF_ALLOC_OBJ": os.path.basename(lib)}
+    try:
+        p = subprocess.run([LIFEMT, rec, ini, str(rounds), order], env=env, cwd=d, timeout=timeout, stdin=subprocess.DEVNULL, stdout=subprocess.PIPE, stderr=subprocess.PIPE)
+        status, err = p.returncode, p.stderr.decode(errors="replace")
+    except subprocess.TimeoutExpired as ex:
+        status, err = "timeout", (ex.stderr or b"").decode(errors="replace")
+    marks, cur, errs = [], None, []
+    for f in (parse_rec(rec) if os.path.exists(rec) else []):
+        if f[0] == "mark":
+            cur = (f[1], int(f[2]))
+        elif f[0] == "alloc" and cur:
+            dd = kv(f[1:])
+            marks.append((cur[0], cur[1], {"lib": sites(dd.get("lib")), "other": sites(dd.get("other"))}))
+            cur = None
+        elif f[0] == "allocerr":
+            errs.append((f[1], f[2] if len(f) > 2 else "?"))
+    return {"status": status, "stderr": err, "marks": marks, "errs": errs, "dir": d}
 
 
 def coq_query(run, name, text, timeout=120):
